@@ -18,3 +18,5 @@ H("G-CHUNK", "chunk_checksum_compares_all_32_bits", "C14", "any 256-bit hash, an
 H("G-CHUNK", "chunk_magic_and_type_corruption_rejected", "C14 C15", "every 12-byte chunk with correct magic, any single-bit flip in the magic; any type byte",
   "corrupted magic => InvalidMagicBytes; type > 3 => UnknownChunkType")
 H("G-CHUNK", "chunk_type_codes", "C14 C18", "every u8", "ChunkType <-> u8 bijection on 0..=3, everything else rejected")
+H("G-CHUNK", "chunk_compressed_change_checksum_both_levels", "C14", "any 256-bit hash of the inflated change, any stored inner and outer checksum; unwind 18",
+  "Chunk::checksum_valid(CompressedChange) <=> outer checksum == inner checksum AND inner checksum == hash[0..4]")
